@@ -218,16 +218,31 @@ def rule_loadall(ctx: Ctx) -> RuleResult:
             res.ok(f"{modname}", f"copies every non-dunder member of {target} (no fixed list of names)")
         else:
             res.violation([modname, "filter"], f"{modname} copies only selected members of {target}", m.relpath, loop.lineno)
+    from ..shape import family
+    from ..dataflow import flow_of
+
     pc = ctx.p.function("spil.sid.pathops.pathconfig.PathConfig.__init__")
     loops = [n for n in own_nodes(pc.node) if isinstance(n, ast.For) and "getmembers" in norm(n.iter)]
-    if loops and any(isinstance(x, ast.Call) and dotted(x.func) == "setattr" for x in ast.walk(loops[0])) and all(
-            norm(i.test) == "name.startswith('__')" for i in ast.walk(loops[0]) if isinstance(i, ast.If)):
+    ok = False
+    if loops:
+        lp = loops[0]
+        var = norm(lp.target.elts[0]) if isinstance(lp.target, ast.Tuple) else "?"
+        sets = [x for x in ast.walk(lp) if isinstance(x, ast.Call) and dotted(x.func) == "setattr" and len(x.args) == 3 and norm(x.args[1]) == var]
+        # the only filter on the copy is the dunder test, in either spelling
+        tests = [norm(i.test) for i in ast.walk(lp) if isinstance(i, ast.If)]
+        ok = bool(sets) and all(t in (f"{var}.startswith('__')", f"not {var}.startswith('__')") for t in tests)
+    if ok:
         res.ok("PathConfig.__init__", "copies every non-dunder member of the path configuration module")
     else:
         res.violation([pc.qualname, "loader"], "PathConfig does not copy every member of its configuration module", pc.relpath, pc.node.lineno)
     # the module is chosen by configured name
-    imp = [n for n in own_nodes(pc.node) if isinstance(n, ast.Call) and dotted(n.func) == "importlib.import_module"]
-    if imp and norm(imp[0].args[0]) == "config_module_name":
+    imp = [(g, n) for g in family(ctx, pc) for n in own_nodes(g.node) if isinstance(n, ast.Call) and dotted(n.func) == "importlib.import_module"]
+    good = False
+    for g, n in imp:
+        a0 = n.args[0] if n.args else None
+        if isinstance(a0, ast.Name) and a0.id in g.params:
+            good = True  # a parameter: PathConfig(name, module name) / helper(module name)
+    if good:
         res.ok("PathConfig module", "imported by the configured module name")
     else:
         res.violation([pc.qualname, "module name"], "PathConfig imports a fixed module", pc.relpath, pc.node.lineno)
